@@ -67,6 +67,27 @@ example :
     NoWrap s.ring ∧ s.ring.outs = [(0, 7)] ∧ s.ring.drop.2 = [(0, 8)] ∧ s.pu = none ∧ s.po = none := by
   refine ⟨Or.inl (by decide), by decide, by decide, by decide, by decide⟩
 
+/-- the wrap-around schedule: capacity 3 on a 2-bit machine word (`W = 4`); three push/pop pairs bring
+`tail` to 3, the fourth push writes slot `3 % 3 = 0` and wraps `tail` to 0, the fifth push then
+computes slot `0 % 3 = 0` again although that slot still holds the fourth value -/
+def wrapSchedule : List RLabel :=
+  let push (v : Val) : List RLabel := List.replicate 5 (.push v)
+  let pop : List RLabel := List.replicate 5 .pop
+  push (0, 1) ++ pop ++ push (0, 2) ++ pop ++ push (0, 3) ++ pop ++ push (0, 4) ++ push (0, 5)
+
+/-- **slot_safety_needs_nowrap_witness** (KNOWN FINDING `sched:wrap-npot:*`): without the `NoWrap`
+hypothesis `ring_slot_safety` is FALSE — the full statement "for all capacities, word sizes and
+schedules no slot is overwritten or read uninitialised" fails once the indices wrap, for a capacity
+that does not divide the word modulus, even with a single producer and a single consumer.
+(`ring_slot_safety` is the part that holds: power-of-two capacities always, any capacity for the
+first `W` pushes.) -/
+theorem slot_safety_needs_nowrap_witness :
+    ¬ (∀ (cap W : Nat) (ls : List RLabel), 0 < cap → cap < W → (rrun (RSys.init cap W) ls).ring.bad = []) := by
+  intro h
+  have := h 3 4 wrapSchedule (by decide) (by decide)
+  revert this
+  decide
+
 /-! ### the track queue: any number of producers (cloned / shared handles), one consumer, `stop()` -/
 
 /-- the initial state of the current code: `sample_track(kind, cap)` on a machine with word modulus `W` -/
